@@ -320,7 +320,8 @@ impl FsmExecutor {
     pub fn send_to_session(&self, session_id: SessionId, event: Event) -> Result<(), SendError<Box<Event>>> {
         match self.get_session_sender(session_id) {
             None => {
-                todo!("Handling of unknown session")
+                // Unknown session: the caller reports "error.communication".
+                Err(SendError(Box::new(event)))
             }
             Some(sender) => sender.send(Box::new(event)),
         }
